@@ -19,6 +19,36 @@ CHECKS = [
     },
 ]
 
+CHECKS += [
+    {
+        "property_id": "C09",
+        "technique": "Lean 4 theorems (model of the operator opcodes meets Spec.Ops) + exhaustive kind-pair/boundary differential run against the real VM",
+        "text": ("Kernel-checked: integer + - * / % and unary - ~ equal exact integer arithmetic reduced modulo 2^64 for all operands (via Int64.toInt lemmas), "
+                 "/0 and %0 are runtime errors for every numeric kind, no operator application panics for any pair of values (by cases over all kinds), the error rows "
+                 "(arrays under non-+, booleans under ordering, negative repetition) and integer relational consistency with ==. Spec.Ops is executable and is the oracle "
+                 "for the differential run: every operator x every ordered pair of operand kinds x boundary pools, plus random 64-bit operands, through the real VM."),
+        "note": ("Full table theorem binary_spec is open: shifts and byte arithmetic are covered by the exhaustive oracle run, not yet by a theorem. Float results are "
+                 "'the IEEE primitive applied to the converted operands' (Lean Float is opaque to the kernel; IEEE primitives trusted). The model of ops is hand-written, tied by correspondence."),
+    },
+    {
+        "property_id": "C06",
+        "technique": "Lean 4 theorem falsey_table (is_falsey = documented table for every value) + exhaustive differential run of is_falsey / ! on the real code",
+        "text": ("Kernel-checked: Object::is_falsey as modelled equals the documented falsey table for every value of every kind, hence ! yields true exactly on it and never fails. "
+                 "The model is compared with the real is_falsey and the real Bang opcode on representatives of every kind (zero/non-zero, empty/non-empty, NaN, -0.0, nested containers, "
+                 "closures, builtins, handles, error objects) and random values."),
+        "note": "The && / || code templates and the if/while/filter positions are open obligations until the compiler/VM model lands; they are then checked through the language-level engine.",
+    },
+    {
+        "property_id": "C10",
+        "technique": "Lean 4 refinement proof (hash-table model refines an association list under ==) + differential run on a real HMap",
+        "text": ("Kernel-checked: keys equal under == feed the same byte stream to the hasher (all values; uses one IEEE fact as hypothesis, none for float-free keys), hence get/insert of the "
+                 "hash-table model equal the association-list spec for every table and key, the pairwise law, and refinement for every sequence of inserts and lookups. The byte stream "
+                 "of the real `impl Hash` is observed with a recording Hasher and compared with the model; a real HMap is driven through insert/get/contains/len and m[k], m[k]=v."),
+        "note": ("Assumes std HashMap finds an entry iff hashes are equal and keys ==, SipHash collision-free on distinct streams; FloatLaw (equal doubles have equal normalised bits) is a hypothesis. "
+                 "Integer keys beyond 2^53 mixed with floats are unconstrained in sequences (== not transitive)."),
+    },
+]
+
 _claimed = {c["property_id"] for c in CHECKS}
 NOT_APPLICABLE = [
     {"property_id": p, "reason": "not yet claimed in this revision: model slice, theorem and correspondence engine still being built (technique applies; see DESIGN.md §6)"}
